@@ -54,6 +54,27 @@ CLAIMS = {
              'applied to libadm after every call, including calls that throw. Parsed files and copies are covered by the '
              'C09/C01 work.',
         design='8 C12'),
+    'C17': dict(
+        technique='Rocq proof of the accessor contract for rows regenerated from the hand-written accessors + generated '
+                  'C++ harness probing every (class, parameter) pair on real objects',
+        text='Theorems (Props/Properties_C17.v): an accessor row accepted by the verified checker satisfies the documented '
+             'contract (set => has, get = v, not isDefault, other slots untouched; unset => optional: not has / default: '
+             'has, isDefault, get = default; has => get succeeds) for every value type, value and object state; every '
+             'scalar hand-written parameter of the current tree (rows regenerated from src/elements and src/serial on every '
+             'run) is accepted. The auto_base templates and the opaque rows (variants, coupled setters, ID setters) are '
+             'covered by the generated harness only: one probe per (class, parameter) pair (226 pairs) with set/unset '
+             'histories, including a fingerprint of all other parameters of the object after every step.',
+        design='8 C17'),
+    'C20': dict(
+        technique='Rocq proof over a regenerated inventory of static objects and of interleaving independence in the model '
+                  '(partial) + ThreadSanitizer workloads and aliasing tests',
+        text='Partial by nature: a Gallina model cannot express data races in the C++. Proved (Props/Properties_C20.v): '
+             'every object with static storage duration found in libadm\'s sources is const/constexpr (inventory '
+             'regenerated from /repo on every run); in the model, workloads on separate worlds give under every '
+             'interleaving the states and results of running each alone. Explored: generated workloads run alone, in the '
+             'extracted model, and in 2..16 threads of a ThreadSanitizer build (identical output, no race report); '
+             'sequential aliasing tests for getCommonDefinitions, parseXml, Document::create and deepCopy.',
+        design='8 C20'),
 }
 
 NOT_YET = {}
